@@ -212,6 +212,8 @@ class VfsWorld:
             I.effect('fs', op='create', path=path)
             self.over[path] = ('state', 'empty')
             return ok(Opaque('StdFile', path=path))
+        if last2 in ('fs::metadata', 'fs::symlink_metadata'):
+            return self.path_query(I, I.deref(args[0]), last2.split('::')[1], node)
         if last2 == 'BufReader::new':
             return args[0]
         if last2 == 'fs::remove_file':
@@ -337,6 +339,8 @@ class VfsWorld:
                     return simp(kk == DIR)
                 if method == 'is_symlink':
                     return simp(kk == LINK)
+                if method == 'file_type':
+                    return Opaque('FileType', path=p, follow=not v.get('nofollow'))
                 if method == 'len':
                     return 0
             if t == 'WalkDir':
